@@ -159,6 +159,12 @@ def spell_part(rng, p, force_dict=False):
                 entries.append((k2, v))
                 continue
         entries.append((nm, cs))
+    given = {k.split(".")[0] for k, _ in entries}
+    for nm in ("condition", "value", "key", "index", "label"):
+        # a slot left empty may be written out as an explicit null (YAML `value:` / JSON null): the same part
+        if nm not in given and not (nm == "key" and p["rk"] == "list") and not (nm == "index" and p["rk"] == "map") \
+                and not (nm == "label" and p["label"] is not None) and rng.random() < 0.06:
+            entries.append((nm, None))
     rng.shuffle(entries)
     for k, v in entries:
         spec[k] = v
